@@ -13,7 +13,7 @@ ASSUMPTIONS = ['engines other than SQLite are not executed: their lexical rules 
 SYMS = ["'", '"', '\\', '\n', '\t', '%', '{', '}', '$', '#', '/*', '*/', '--', ';', 'é', 'a']
 WORDS = ['%s', '{0}', '${f}', "''", "\\'", '%(x)s', '{}', '\\n', ' ', "';--", '";', "\\\\'"]
 FLAG_F = 'Vf'
-POSITIONS = ['fact', 'list', 'record', 'concat', 'flag_default', 'user_flag']
+POSITIONS = ['fact', 'list', 'record', 'concat', 'flag_default', 'user_flag', 'grounded']
 
 
 def strings(maxlen):
@@ -55,8 +55,10 @@ def program(dialect, position, items):
     elif position == 'list': lines.append('T(%d, [%s, "z"]);' % (i, lit))
     elif position == 'record': lines.append('T(%d, {fld: %s, n: 1});' % (i, lit))
     elif position == 'concat': lines.append('T(%d, "<" ++ %s ++ ">");' % (i, lit))
+    elif position == 'grounded': lines.append('G(%d, %s);' % (i, lit))
     elif position == 'flag_default':
       lines.append('@DefineFlag("fl%d", %s);' % (i, lit)); lines.append('T(%d, FlagValue("fl%d"));' % (i, i))
+  if position == 'grounded': lines += ['@Ground(G);', 'T(i, s) :- G(i, s);']
   return '\n'.join(lines) + '\n'
 
 
